@@ -279,3 +279,39 @@ func VerifFRRK8sPassword() {
 	vr.Assert(!vhAll(nb.Password != "", nb.PasswordSecret.Name != ""), "both password and secret reference set")
 	vr.Reach("password checked")
 }
+
+func init() {
+	verifHarnesses["VerifFRRK8sSetRefused"] = func(a []int) { VerifFRRK8sSetRefused() }
+}
+
+// VerifFRRK8sSetRefused (C15, histories): a Set refused by validation (an advertisement with more than 63
+// communities) leaves what the session advertises untouched: the configuration produced by a later,
+// unrelated change (another session's Set) still lists for the first neighbor what its last accepted Set
+// requested.
+func VerifFRRK8sSetRefused() {
+	sess := vhSessions(2, 2, 0)
+	var last frrv1beta1.FRRConfiguration
+	sm := NewSessionManager(log.NewNopLogger(), logging.LevelInfo, "node-me", "metallb-system")
+	sm.SetEventCallback(func(c interface{}) { last = c.(frrv1beta1.FRRConfiguration) })
+	var bss []bgp.Session
+	for _, s := range sess {
+		bs, err := sm.NewSession(log.NewNopLogger(), s.params)
+		vr.Assert(err == nil, "NewSession failed")
+		vr.Assert(bs.Set(s.advs...) == nil, "Set failed")
+		bss = append(bss, bs)
+	}
+	before := last.DeepCopy()
+	bad := &bgp.Advertisement{Prefix: sess[0].advs[0].Prefix, LocalPref: sess[0].advs[0].LocalPref}
+	for i := 0; i < 64; i++ {
+		bad.Communities = append(bad.Communities, vhC1)
+	}
+	list := []*bgp.Advertisement{sess[0].advs[1], bad}
+	if vr.Bool() {
+		list = []*bgp.Advertisement{bad, sess[0].advs[1]}
+	}
+	vr.Assert(bss[0].Set(list...) != nil, "an advertisement with 64 communities was accepted")
+	// an unrelated regeneration: the other session repeats its Set
+	vr.Assert(bss[1].Set(sess[1].advs...) == nil, "Set failed")
+	vr.Assert(reflect.DeepEqual(before.Spec, last.Spec), "a refused Set changed what the session advertises")
+	vr.Reach("refused Set left the session untouched")
+}
